@@ -295,6 +295,22 @@ check('C07', 'specs/Headers.tla + specs/HeadersTrace.tla + harness/c07_headers.p
       'TLA+/TLC exhaustive model with switchable code-as-found transcription + 1:1 replay of simulated behaviours + TLC trace validation of real executions with mined headers',
       'DESIGN.md 5/C07')
 
+check('C12', 'specs/DhtLookup.tla + specs/DhtStore.tla + specs/DhtPaging.tla + specs/MCDhtPaging.tla + specs/DhtTrace.tla + harness/c12_dht.py',
+      'TLC exhaustively checks an iterative-lookup model (every reply kind - contacts, value pages with inflated page counts, malformed, error, silence - '
+      'at every probe, <=6 remote nodes) for progress, rpc_timeout-bounded termination, probe-once-per-page and output validity (NodeResultsRepliedOnly, '
+      'NeverSelf, ValueResultsWellFormed), with negative controls and the unbounded-paging behaviour of the code as found as a counterexample; a network '
+      'model (XOR metric, k-buckets, join through a bootstrap node, store with token, duplicated and late stores, expiry at exactly 24 h) for Hit / '
+      'NoHitAfter / StoredAtClosest over every saturated routing-table assignment; and the findValue page arithmetic for every n <= 100 with K = 8 (formula '
+      'as found refuted at exactly 89, 97, 98). The same clauses are then judged by TLC (DhtTrace.tla) on records of 2..40 real Node objects running in '
+      'one process on a driver-controlled datagram network under the deterministic loop: paging 1..100 announcers on one real node (real store datagrams, '
+      'real IterativeValueFinder), every entry of a 42-item hostile-reply catalogue with dead nodes and loss, and value lookups from every other node '
+      'fresh, 30 s before, 1/1024 s before, exactly at and 400 s after 24 h.',
+      'UDP replaced by an in-process network (delay <= 0.2 s, duplication, reordering; loss only in the termination part), virtual time. Hit guarantee '
+      'judged after a 4000 s warm-up (12000 s for N > 12); exact-closest storage only once every node knows its 8 nearest. Models use K = 2, ALPHA = 2 and '
+      'treat a probe\'s end and its callback as one step; no stepwise conformance of the real finder against the model. A value lookup is judged '
+      'non-terminating after 400 findValue requests to one peer.',
+      'TLA+/TLC exhaustive protocol models + TLC-judged traces of real DHT nodes on a deterministic fault-injecting network', 'DESIGN.md 5/C12')
+
 NOT_YET = 'check not built yet in this round (design in DESIGN.md section 5); will be claimed once its driver exists'
 ALL = [f'C{i:02d}' for i in range(1, 21)]
 
